@@ -4,13 +4,16 @@ CONSTANTS
   MaxOwn = 1
   MaxHard = 1
   MaxPop = 1
-  Budget = 4
+  PopClasses = 2
+  B1 = 3
+  B2 = 3
+  B3 = 2
+  B4 = 0
+  B5 = 0
   MaxChain = 2
   FnOwn = 1
   EmitAllUpTo = 1
-  Sel = 50
-INVARIANT RefLaws
-INVARIANT AlgRefinesRef
-INVARIANT HardNotOffered
-INVARIANT EmitProgram
+  Sel = 12
+  KeepGoing = TRUE
+INVARIANT Inv
 CHECK_DEADLOCK FALSE
